@@ -141,7 +141,7 @@ func checkC10() int {
 func checkC08() int {
 	c := NewCheck("C08")
 	pool := newPool()
-	nEnv := c.pick(350, 10000)
+	nEnv := c.pick(700, 10000)
 	r := rand.New(rand.NewSource(subSeed(c.Seed, 808)))
 	c.Rule = "G2 well-formed environments extended with equal-by-construction variants (unrolled copy, alias, isomorphic copy of the whole environment, permuted branches) and one-difference variants; all ordered pairs of names plus pairs of sub-terms (<= 400 queries per environment) are put to types.EqualType on the types Grits itself parsed; oracle: bisimilarity of the fully moded regular trees built by R3; a worker death or the step budget (1e6 + 1e3*size^2) counts as non-termination; non-trivial = distinct environment with a recursive definition and >= 20 queries"
 	c.Assumptions = []string{"only environments R3 finds well formed and Grits accepts are queried", "R3 bisimulation remembers visited pairs by node identity"}
@@ -213,7 +213,7 @@ func checkC08() int {
 		}
 		return rtypes.Sub(e.an.Trees[name], path)
 	}
-	queries, trueAnswers, maxSteps := 0, 0, int64(0)
+	queries, trueAnswers, maxSteps, reflTrans := 0, 0, int64(0), 0
 	for i, o := range outs {
 		e := cases[i]
 		c.Evaluations++
@@ -278,6 +278,37 @@ func checkC08() int {
 		if bad {
 			continue
 		}
+		// reflexivity and transitivity on the answers themselves (independent of the oracle)
+		succ := map[string][]string{}
+		for q, g := range ans {
+			if q[0] == q[1] && g == 0 {
+				w["query"] = q
+				c.Violation("EqualType is not reflexive", w)
+				bad = true
+				break
+			}
+			if g == 1 && q[0] != q[1] {
+				succ[q[0]] = append(succ[q[0]], q[1])
+			}
+		}
+		for a, bs := range succ {
+			if bad {
+				break
+			}
+			for _, b := range bs {
+				for _, cc := range succ[b] {
+					if g, ok := ans[[2]string{a, cc}]; ok && g == 0 && !bad {
+						w["query"] = [3]string{a, b, cc}
+						c.Violation("EqualType is not transitive", w)
+						bad = true
+					}
+				}
+			}
+		}
+		if bad {
+			continue
+		}
+		reflTrans++
 		rec := false
 		for _, d := range e.defs {
 			if strings.Contains(d.Body.Text(), d.Name) {
@@ -293,6 +324,7 @@ func checkC08() int {
 	}
 	c.Extra["queries_compared"] = queries
 	c.Extra["queries_with_answer_true"] = trueAnswers
+	c.Extra["environments_whose_answers_are_reflexive_symmetric_transitive"] = reflTrans
 	c.Extra["max_equality_steps_in_one_environment"] = maxSteps
 	return c.Finish()
 }
